@@ -169,9 +169,10 @@ Proof.
   destruct Hinv as (Hdata & Hmul & Hnd & Hpos & Hspc & Hcc & Hlo & Hty & Hver).
   rewrite Hdata.
   destruct (bpb_fields_range blk Hblk) as (Hre & Hrs & Hnf & _ & Hfs & Htot & Hfi).
-  rewrite sub32_ok by exact Hpos. cbn [bind].
-  destruct (checked_add32 lba (bpb_total_blocks blk - 1)) as [fit|] eqn:Efit; [|discriminate].
+  destruct (checked_add32 lba (bpb_total_blocks blk)) as [fit|] eqn:Efit; [|discriminate].
   apply checked_add32_inv in Efit. destruct Efit as [_ Hfit].
+  destruct ((bpb_reserved_block_count blk =? 0) || (bpb_num_fats blk =? 0)); [discriminate|].
+  destruct (bpb_fat_size blk * 512 <? _); [discriminate|].
   unfold bpb_non_data in Hnd.
   assert (Hsec : (if bpb_num_fats blk =? 2
                   then let! s := add32 (bpb_reserved_block_count blk) (bpb_fat_size blk) in Ok (Some s)
@@ -198,6 +199,7 @@ Proof.
   - (* FAT32 *)
     rewrite mul32_ok by exact Hmul. cbn [bind].
     rewrite add32_ok by lia. cbn [bind].
+    destruct (268435445 <? bpb_cluster_count b); [discriminate|].
     unfold bpb_fs_info_block. rewrite Ety.
     destruct ((bpb_fs_info (bpb_data b) =? 0) || (bpb_reserved_block_count blk <=? bpb_fs_info (bpb_data b))) eqn:Hloc; [discriminate|].
     apply Bool.orb_false_iff in Hloc. destruct Hloc as [_ Hloc]. apply N.leb_gt in Hloc.
@@ -447,10 +449,14 @@ Proof.
   rewrite H3, N.eqb_refl. reflexivity.
 Qed.
 
-Lemma parse_volume_format g ib : valid_geom g ->
+(* KNOWN CLASS: a volume whose last block is block 2^32 - 1.  Block ranges are half-open u32
+   intervals in the crate (BlockIdx::range), so such a volume is refused at mount. *)
+Definition ends_at_limit (g : geom) : Prop := g_lba g + g_total g = TWO32.
+
+Lemma parse_volume_format g ib : valid_geom g -> ~ ends_at_limit g ->
   parse_volume (format_with g ib) (g_lba g) (g_part_blocks g) = mounted_with g ib.
 Proof.
-  intros Hv.
+  intros Hv Hlim. unfold ends_at_limit in Hlim.
   assert (Hf := boot_sector_facts g Hv).
   assert (Hb := bpb_create_of_facts g _ Hv Hf).
   valid_split Hv.
@@ -459,8 +465,11 @@ Proof.
   rewrite Hb. cbn [bind bpb_data bpb_fat_type bpb_cluster_count].
   rewrite Ftot, Fres, Fnf, Ffs, Fspc.
   unfold spec_first_data in Hfd. unfold TWO32 in *.
-  rewrite sub32_ok by lia. cbn [bind].
   rewrite checked_add32_some by (unfold U32_MAX; lia).
+  replace ((g_reserved g =? 0) || (g_nfats g =? 0)) with false
+    by (symmetry; apply Bool.orb_false_iff; split; apply N.eqb_neq; [lia|destruct Hnf as [<-|[<-|[]]]; discriminate]).
+  replace (g_fat_size g * 512 <? (n_clusters g + 2) * match (if is_fat32 g then Fat32 else Fat16) with Fat16 => 2 | Fat32 => 4 end)
+    with false by (symmetry; apply N.ltb_ge; destruct (is_fat32 g); lia).
   assert (Hsec : (if g_nfats g =? 2 then let! s := add32 (g_reserved g) (g_fat_size g) in Ok (Some s) else Ok None)
                  = Ok (if g_nfats g =? 2 then Some (g_reserved g + g_fat_size g) else None)).
   { destruct (N.eqb_spec (g_nfats g) 2) as [E2|E2]; [|reflexivity].
@@ -472,6 +481,7 @@ Proof.
     destruct Fkind as (Fver & Frc & Ffi & Flab).
     rewrite mul32_ok by (unfold U32_MAX; lia). cbn [bind].
     rewrite add32_ok by (unfold U32_MAX; lia). cbn [bind].
+    replace (268435445 <? n_clusters g) with false by (symmetry; apply N.ltb_ge; lia).
     rewrite Ffi, Frc, Flab.
     replace ((g_fs_info g =? 0) || (g_reserved g <=? g_fs_info g)) with false
       by (symmetry; apply Bool.orb_false_iff; split; [apply N.eqb_neq|apply N.leb_gt]; lia).
@@ -513,10 +523,10 @@ Qed.
 Lemma supported_fat_types t : fat_partition_type t -> supported_type t = true.
 Proof. unfold fat_partition_type. intros [<-|[<-|[<-|[<-|[<-|[]]]]]]; reflexivity. Qed.
 
-Theorem mount_format_with g ib : valid_geom g ->
+Theorem mount_format_with g ib : valid_geom g -> ~ ends_at_limit g ->
   mount (format_with g ib) (g_slot g) = mounted_with g ib.
 Proof.
-  intros Hv. unfold mount. rewrite read_mbr_format by exact Hv. cbn [bind].
+  intros Hv Hlim. unfold mount. rewrite read_mbr_format by exact Hv. cbn [bind].
   rewrite supported_fat_types by (valid_split Hv; exact Hptype).
   apply parse_volume_format; assumption.
 Qed.
@@ -538,15 +548,31 @@ Proof.
     apply le32_rt. exact Hn.
 Qed.
 
-Theorem mount_format g : valid_geom g ->
+Theorem mount_format g : valid_geom g -> ~ ends_at_limit g ->
   mount (format g) (g_slot g) = Ok (layout g).
 Proof.
-  intros Hv. unfold format. rewrite mount_format_with by assumption.
+  intros Hv Hlim. unfold format. rewrite mount_format_with by assumption.
   unfold mounted_with. destruct (is_fat32 g) eqn:E32; [|reflexivity].
   valid_split Hv. rewrite E32 in Hkind.
   destruct Hkind as (Hmax & Hfat & Hre0 & Hu & Hrc & Hfi & Hfree & Hnext).
   destruct (info_sector_facts g Hfree Hnext) as (Hc & H488 & H492).
   rewrite Hc. cbn [bind]. rewrite H488, H492. reflexivity.
+Qed.
+
+(* the known class is refused, with the "does not fit" message, whatever the FS information sector *)
+Theorem mount_limit_refused g ib : valid_geom g -> ends_at_limit g ->
+  mount (format_with g ib) (g_slot g) = Err (FormatError NoFit).
+Proof.
+  intros Hv Hlim. unfold ends_at_limit in Hlim. unfold mount. rewrite read_mbr_format by exact Hv. cbn [bind].
+  rewrite supported_fat_types by (valid_split Hv; exact Hptype).
+  assert (Hf := boot_sector_facts g Hv).
+  assert (Hb := bpb_create_of_facts g _ Hv Hf).
+  valid_split Hv.
+  destruct Hf as (Ffoot & Fbpb & Fspc & Fres & Fnf & Fre & Ffs & Ftot & Fkind).
+  unfold parse_volume, read_block. rewrite format_with_lba by exact Hlba. cbn [bind].
+  rewrite Hb. cbn [bind bpb_data bpb_fat_type bpb_cluster_count].
+  rewrite Ftot. unfold checked_add32. unfold TWO32 in Hlim.
+  destruct (N.leb_spec (g_lba g + g_total g) U32_MAX) as [H|H]; [unfold U32_MAX in H; lia|reflexivity].
 Qed.
 
 (* ======================================================================== *)
@@ -601,7 +627,7 @@ Lemma info_create_cases d :
 Proof. reflexivity. Qed.
 
 Theorem info_sentinels g ib :
-  valid_geom g -> is_fat32 g = true ->
+  valid_geom g -> ~ ends_at_limit g -> is_fat32 g = true ->
   let r := mount (format_with g ib) (g_slot g) in
   (get32 ib 0 <> LEAD_SIG -> r = Err (FormatError LeadSig)) /\
   (get32 ib 0 = LEAD_SIG -> get32 ib 484 <> STRUC_SIG -> r = Err (FormatError StrucSig)) /\
@@ -614,7 +640,7 @@ Theorem info_sentinels g ib :
        (get32 ib 492 = 4294967295 \/ get32 ib 492 = 0 \/ get32 ib 492 = 1 -> next_free_cluster v = None) /\
        (get32 ib 492 <> 4294967295 -> 2 <= get32 ib 492 -> next_free_cluster v = Some (get32 ib 492))).
 Proof.
-  intros Hv E32 r. subst r.
+  intros Hv Hlim E32 r. subst r.
   rewrite mount_format_with by assumption.
   unfold mounted_with. rewrite E32, info_create_cases.
   split; [|split; [|split]].
@@ -744,10 +770,10 @@ Lemma ex32_mounts :
         (Fat32Info 2 2049)).
 Proof. vm_compute. reflexivity. Qed.
 
-Lemma ex_edge_mounts :
-  mount (format ex_edge) 3 =
-  Ok (mkVolume 4294963144 4152 [32;32;32;32;32;32;32;32;32;32;32] 1 67 1 (Some 18) None None 4085 (Fat16Info 35 512)).
-Proof. vm_compute. reflexivity. Qed.
+(* the volume ending at block 2^32 - 1 is the known class: refused *)
+Lemma ex_edge_refused :
+  ends_at_limit ex_edge /\ mount (format ex_edge) 3 = Err (FormatError NoFit).
+Proof. split; vm_compute; reflexivity. Qed.
 
 (* the byte-range premise of the totality theorem matters, and Panic is a live outcome of
    the model: a "sector" whose entries are not bytes overflows root_entries_count * 32 *)
@@ -767,7 +793,7 @@ Proof. vm_compute. reflexivity. Qed.
 
 (* the prescribed layout spelled out field by field *)
 Theorem mount_format_fields g :
-  valid_geom g ->
+  valid_geom g -> ~ ends_at_limit g ->
   exists v, mount (format g) (g_slot g) = Ok v /\
     lba_start v = g_lba g /\ num_blocks v = g_part_blocks g /\
     name v = map (g_label g) (range 0 11) /\
@@ -784,7 +810,7 @@ Theorem mount_format_fields g :
        free_clusters_count v = spec_free (g_info_free g) /\
        next_free_cluster v = spec_hint (g_info_next g)).
 Proof.
-  intros Hv. exists (layout g). split; [apply mount_format; assumption|].
+  intros Hv Hlim. exists (layout g). split; [apply mount_format; assumption|].
   unfold layout, layout_with.
   cbn [lba_start num_blocks name blocks_per_cluster fat_start second_fat_start first_data_block
        cluster_count fat_specific_info free_clusters_count next_free_cluster].
